@@ -92,7 +92,12 @@ def part_a(ctx, scratch, quick):
         fdp = ["./" + d for d in fd]
         reach = [p for p in fdp if not any(p.startswith(o + "/") for o in fdp if o != p)]
         hidden = lambda p: any(p.startswith(o + "/") for o in fdp)  # noqa: E731
+        # entries whose content cannot be read now: the files made unreadable, and links whose target is one of
+        # them or lies behind a directory that can no longer be entered (facts of the snapshot taken as uid 65534)
         ffp = set(("./" + f).encode() for f in ff)
+        for n in faulty.nodes:
+            if n["kind"] == "l" and "nl" not in n["facts"]:
+                ffp.add(("./" + n["rel"]).encode())
         case = {"argv": [q_rows], "tree": case0["tree"], "unlistable": fd, "unreadable": ff, "as": "uid 65534"}
         ctx.case((t, "faulty", q_rows))
         ctx.distinct.add((t, q_rows, "nt"))
